@@ -131,6 +131,8 @@ pub struct Req {
     pub zc: bool,
     /// Everything posted for this request.
     pub posted: Vec<Cqe>,
+    /// Bytes the kernel wrote into user buffers, one entry per posted completion.
+    pub produced: Vec<Vec<u8>>,
     /// Bytes the kernel "read" from user memory (write/send payloads).
     pub captured: Vec<u8>,
     /// Descriptors created for this request: (number, direct).
@@ -191,7 +193,9 @@ pub struct Ring {
     pub cq_tail: u32,
     /// Last completion-queue head published by a10 that the kernel has seen.
     pub cq_seen_head: u32,
-    pub backlog: VecDeque<Cqe>,
+    pub backlog: VecDeque<(Cqe, u64)>,
+    /// Final completions published but not yet consumed by a10: (position, request).
+    pub state_watch: Vec<(u32, u64)>,
     pub disabled: bool,
     pub owner_thread: Option<u64>,
     pub pbufs: HashMap<u16, PbufRing>,
@@ -518,6 +522,9 @@ impl Simk {
             for (_, p) in ring.pbufs.drain() {
                 alloc::release(p.hold_id);
             }
+            for (_, req) in ring.state_watch.drain(..) {
+                alloc::release(req);
+            }
             // Mappings stay valid until unmapped, keep the ring for the ledger.
             self.dead_rings.push(ring);
         }
@@ -686,6 +693,7 @@ unsafe fn k_setup(entries: c_uint, params: *mut c_void) -> c_int {
         cq_tail: s.knobs.cq_start,
         cq_seen_head: s.knobs.cq_start,
         backlog: VecDeque::new(),
+        state_watch: Vec::new(),
         disabled: flags & SETUP_R_DISABLED != 0,
         owner_thread: if flags & SETUP_SINGLE_ISSUER != 0 && flags & SETUP_R_DISABLED == 0 {
             Some(thread_id())
@@ -827,7 +835,13 @@ unsafe fn k_munmap(addr: *mut c_void, len: usize) -> c_int {
             let _ = inflight_open;
             match which {
                 0 => ring.sq_ring.unmap(),
-                1 => ring.cq_ring.unmap(),
+                1 => {
+                    // a10 can no longer look at completions.
+                    for (_, req) in ring.state_watch.drain(..) {
+                        alloc::release(req);
+                    }
+                    ring.cq_ring.unmap()
+                }
                 _ => ring.sqes.unmap(),
             }
             break;
